@@ -212,6 +212,18 @@ func scripted(prop string) []script {
 		{Kind: "Observe", H: 1001, Dissent: 900000, DissentBy: 0},
 		{Kind: "Observe", H: 1001, Dissent: 900000, DissentBy: 2},
 	}})
+	// (7) bridge calls queued by the real bridgeCall precompile (no from-msg marker), refund address != sender:
+	// one settled by a failed result, one by its time-out (T = 1000+3 = 1003), one created by MsgBridgeCall for contrast;
+	// the refund address must receive FX in the bank / the registered coin as ERC-20 (as base coins for the msg call)
+	out = append(out, script{paramSets[2], 100000, []Op{
+		{Kind: "Observe", H: 1000},
+		{Kind: "BridgeCallP", Sender: 0, Refund: 1, Amount: 50, Coins: [][2]int64{{3, 60}}, To: 2, Data: []byte{1}},
+		{Kind: "BridgeCallP", Sender: 2, Refund: 0, Coins: [][2]int64{{3, 70}}, To: 1, Data: []byte{2}, Memo: []byte{9}},
+		{Kind: "BridgeCall", Sender: 1, Refund: 2, Coins: [][2]int64{{0, 5}, {3, 30}}, To: 0, Data: []byte{3}},
+		{Kind: "ObserveResult", Nonce: 1, Success: false, H: 1001},
+		{Kind: "ExecResult", E: 2},
+		{Kind: "Observe", H: 1003},
+	}})
 	// (4) more than 100 entries of one token: the batch takes the 100 best, ties by descending id
 	var big []Op
 	big = append(big, Op{Kind: "Observe", H: 77})
